@@ -1,6 +1,38 @@
 package props
 
-import "testing"
+import (
+	"fmt"
+	"os"
+	"testing"
+)
 
 func TestC01(t *testing.T) { RunProp(t, "C01", "roundtrip", genWireCase, checkC01) }
 func TestC02(t *testing.T) { RunProp(t, "C02", "wire", genWireCase, checkC02) }
+
+// TestKnown re-confirms the known findings listed for $VERIF_PROP and prints
+// one KNOWN-FINDING line per finding that still reproduces.  It never fails.
+func TestKnown(t *testing.T) {
+	prop := os.Getenv("VERIF_PROP")
+	for _, e := range KnownEntries() {
+		if e.Prop != prop {
+			continue
+		}
+		probe := knownProbes[e.Sig]
+		if probe == nil {
+			fmt.Printf("KNOWN-FINDING: property=%s sig=%s %s (no probe registered)\n", e.Prop, e.Sig, e.Text)
+			continue
+		}
+		if ok, detail := probe(); ok {
+			fmt.Printf("KNOWN-FINDING: property=%s sig=%s %s [probe: %s]\n", e.Prop, e.Sig, e.Text, detail)
+		} else {
+			fmt.Printf("NOTE: known finding property=%s sig=%s no longer reproduces (%s)\n", e.Prop, e.Sig, detail)
+		}
+	}
+}
+
+func TestC03(t *testing.T) { RunProp(t, "C03", "decode", genReadCase, checkC03) }
+
+func TestC04Cells(t *testing.T) { RunEnum(t, "C04", "alphabet", enumCells, checkC04Cell) }
+func TestC04Hist(t *testing.T)  { RunProp(t, "C04", "history", genHistCase, checkC04Hist) }
+
+func TestC05(t *testing.T) { RunProp(t, "C05", "faults", genFaultCase, checkC05) }
